@@ -24,6 +24,7 @@ pub fn def() -> CheckDef {
         cpu_limit_s: 60,
         fault_kinds: "F-SR short reads, F-SW short writes, F-EI interrupted calls (rate-based, dense); backends Cursor and std::fs::File",
         count_subruns: false,
+        expect_probes: &[],
     }
 }
 
